@@ -1,14 +1,16 @@
 """C11 - decided on the metadata-heavy engine-history corpus by the C11.* clauses of spec/Trace_Doc.tla."""
-from checks import _shared
+from checks import _shared, _core
 import shared
 
 LEVEL = "model_checking"
 
 
 def run(ctx):
-  return _shared.run_clauses(ctx, "C11.", lambda e: e['k'] == 'B' and e['n_twoway'] > 0,
-                             "after every successful call on documents with two-way linked columns: the link is mutual and row a refers to row b exactly when b refers to a (Meta!TwoWayViolations); rejected changes are judged by the C04 clauses", name="meta", plan=shared.PLAN_META)
+  return _core.merge(ctx, _shared.run_clauses(ctx, "C11.", lambda e: e['k'] == 'B' and e['n_twoway'] > 0,
+                             "after every successful call on documents with two-way linked columns: the link is mutual and row a refers to row b exactly when b refers to a (Meta!TwoWayViolations); rejected changes are judged by the C04 clauses", name="meta", plan=shared.PLAN_META), "C11.")
 
 
 def replay(ctx, data):
+  if "core_chunk" in data:
+    return _core.replay(ctx, data, "C11.")
   return _shared.replay_clause(ctx, data, "C11.")
